@@ -16,6 +16,7 @@ from .. import core
 EPS_WIT = Fraction(1, 10**12)  # tolerance of the square-root witnesses inside the model
 EPS_VALID = Fraction(1, 10**9)  # tolerance of the validator clauses (relative to the squared radius)
 TOL_POINT = 1e-9  # model/oracle point vs. implementation point, relative to the scale of the case
+EPS_ANGLE = Fraction(1, 10**7)  # clauses of the acos-step validator (cosine of length/radius vs. r1.r3/|r1|^2)
 TOL_LEN = 1e-6  # lengths (the acos step is ill-conditioned near 0, pi, 2*pi)
 TWO_PI = 2 * math.pi
 
@@ -139,7 +140,9 @@ class C08(core.Check):
     ]
     partial_note = (
         "Theorems: mid point / centre / uniqueness / three-point centre / side test on bisector / polyline >= chord. "
-        "Validator-checked only: the acos step (length = radius x angle), arc length >= chord for arcs, float rounding. "
+        "Over the reals (round 6): arc_length_3point as modelled = radius x angle incl. the arccos step, exactly outside the known "
+        "finding's region; the three specifications agree. Validator-checked only: float rounding of the implementation (its acos step is "
+        "validated through a rational (cos, sin) witness of length/radius), arc length >= chord for Origin/classic arcs. "
         "Known finding: the interior/exterior decision of arc_length_3point for a third point between the far end and the "
         "antipode (identical to blockMesh's arcEdge)."
     )
@@ -685,6 +688,11 @@ class C08(core.Check):
                 )
                 # ArcEdgeBase.is_valid of the model for the implementation's third point
                 reqs.append(f"c08.valid {_vec(case['p1'])} {_vec(case['p2'])} {_vec(impl['third'])}")
+                # radius x sector angle from the model's centre (round 6; T_C08_specs_real)
+                reqs.append(
+                    f"c08.thetalen {core.rat(th)} {_vec(case['p1'])} {_vec(case['p2'])} {_vec(case['axis'])} "
+                    f"{core.rat(c)} {core.rat(s)} {eps}"
+                )
             return reqs
         if kind in ("origin", "origin_adj"):
             reqs = [
@@ -703,7 +711,18 @@ class C08(core.Check):
                 reqs.append(f"c08.valid {_vec(case['p1'])} {_vec(case['p2'])} {_vec(impl['third'])}")
             return reqs
         if kind in ("arc3", "arc3_beyond", "arc3_bad"):
-            return [f"c08.arc3 {_vec(case['p1'])} {_vec(case['pb'])} {_vec(case['p2'])}"]
+            reqs = [f"c08.arc3 {_vec(case['p1'])} {_vec(case['pb'])} {_vec(case['p2'])}"]
+            if kind != "arc3_bad" and isinstance(impl.get("direct"), float) and math.isfinite(impl["direct"]):
+                # the acos step with a witness (round 6): (cos, sin) of length/radius as an exact rational point of the unit
+                # circle; the model checks it against its exact centre, radius vectors and side decision
+                _, R, _ = arc_through(case["p1"], case["pb"], case["p2"])
+                u = Fraction(math.tan(impl["direct"] / R / 2))
+                cth, sth = (1 - u * u) / (1 + u * u), 2 * u / (1 + u * u)
+                reqs.append(
+                    f"c08.varc3 {_vec(case['p1'])} {_vec(case['pb'])} {_vec(case['p2'])} {core.rat(cth)} {core.rat(sth)} "
+                    f"{core.rat(EPS_ANGLE)}"
+                )
+            return reqs
         if kind in ("poly", "poly_bad"):
             return ["c08.poly " + ";".join(_vec(p) for p in case["points"]) + " " + eps]
         if kind == "curve" and "pts" in impl:
@@ -792,6 +811,13 @@ class C08(core.Check):
                 return f"validator on the implementation's point: {model[1]}"
             if len(model) > 2 and model[2] in ("0", "1") and (model[2] == "1") != bool(impl["valid"]):
                 return f"ArcEdgeBase.is_valid: implementation {impl['valid']}, model {model[2]} (collinearity measure chord x rise vs TOL)"
+            if len(model) > 3 and impl.get("valid"):
+                a3 = model[3].split()
+                if a3[0] != "ok":
+                    return f"model answers {model[3]} for the arc length"
+                ml = float(core.parse_rat(a3[1]))
+                if not abs(ml - impl["length"]) <= TOL_LEN * max(1.0, ml):
+                    return f"AngleEdge.length: implementation {impl['length']}, model radius x angle {ml}"
             return None
         if kind in ("arc3", "arc3_beyond"):
             if ans[0] != "ok":
@@ -801,6 +827,11 @@ class C08(core.Check):
                 return f"arc_length_3point: implementation {impl['direct']}, model {ml}"
             if impl["valid"] and not abs(ml - impl["length"]) <= TOL_LEN * max(1.0, ml):
                 return f"ArcEdge.length: implementation {impl['length']}, model {ml}"
+            if len(model) > 1 and model[1] != "ok":
+                return (
+                    f"arc_length_3point: length/radius = {impl['direct']} / R is not the included angle on the side the "
+                    f"code decided (validator: {model[1]})"
+                )
             return None
         if kind == "arc3_bad":
             want = "reject" if impl["direct"] == "ValueError" else "ok"
